@@ -3,12 +3,22 @@ package common
 // C29: address and text encodings.
 
 //verif:property C29
+//verif:bound base32 (standard alphabet, padding): every byte string of 0..7 bytes
+//verif:bound ConvertBits 8->5->8: every byte string of 1, 5 and 20 bytes
+//verif:bound address round trip: P2WPKH (20-byte) and P2WSH (32-byte) programs on mainnet, testnet and solonet in which the last 1 or 2 bytes are arbitrary (quick; thorough adds an arbitrary first byte) and the other bytes follow the fixed pattern 11+37*i; decoding under the two other networks' parameters must fail
+//verif:bound single-character corruption: such a mainnet P2WPKH address (42 characters), one position replaced by any other ASCII byte; quick: positions 0..2 (prefix, separator) and 30..41 (end of data, checksum); thorough adds positions 18..29
+//verif:bound arbitrary input: DecodeAddress and Bech32Decode on every string of 9 ASCII bytes (quick), 10 (thorough)
+//verif:assume strings.ToLower / ToUpper / LastIndexByte / (*strings.Builder).String are modelled by engine intrinsics that are exact on ASCII strings (standard library, not code under test); inputs are therefore restricted to bytes below 0x80
+//verif:outside programs with more arbitrary bytes: the bech32 checksum is an XOR network, with all 160 program bits symbolic the round-trip query was undecided after 380 s in z3 4.8, z3 5.1 and cvc5; corruption of positions 3..17 (same reason); two or more changed characters
+//verif:outside wallet/mnemonic (SHA-256, big.Int, 2048-word list), base32 stream encoder/decoder and inputs above 7 bytes, non-ASCII strings, strings longer than 10 bytes in the no-panic claim
 //verif:obligation fn=VerifC29Base32 args=0;1;2;3;4;5;6;7 validate=12
 //verif:obligation fn=VerifC29ConvertBits args=1;5;20 validate=12
-//verif:obligation fn=VerifC29Address args=20,0,1,0;32,1,1,31;20,2,1,19 idx=ite solver=z3-bv timeout=60000 validate=12
-//verif:obligation fn=VerifC29Address args=20,0,2,0;20,0,3,8;20,0,4,16;32,0,2,15 idx=ite solver=z3-bv timeout=300000 tier=thorough secs=1700
-//verif:obligation fn=VerifC29Corrupt args=20,0,1,7 idx=ite solver=z3-bv timeout=60000 validate=12
-//verif:obligation fn=VerifC29DecodeAny args=9,0 idx=ite solver=z3-bv timeout=60000 validate=12
+//verif:obligation fn=VerifC29Address args=20,0,1,19;32,0,1,31;20,1,1,19;32,2,1,31;20,2,2,18 idx=ite solver=z3-bv timeout=120000 validate=12
+//verif:obligation fn=VerifC29Address args=20,0,1,0;32,0,1,0;32,1,2,30 idx=ite solver=z3-bv timeout=900000 tier=thorough secs=1700
+//verif:obligation fn=VerifC29Corrupt args=20,0,0,2;20,0,30,33;20,0,34,37;20,0,38,41 idx=ite solver=z3-bv timeout=120000 validate=12
+//verif:obligation fn=VerifC29Corrupt args=20,0,18,21;20,0,22,25;20,0,26,29 idx=ite solver=z3-bv timeout=900000 tier=thorough secs=1700
+//verif:obligation fn=VerifC29DecodeAny args=9,0 idx=ite solver=z3-bv timeout=120000 validate=12
+//verif:obligation fn=VerifC29DecodeAny args=10,1 idx=ite solver=z3-bv timeout=120000 tier=thorough secs=1700 loops=100000
 
 import (
 	"bytes"
@@ -109,9 +119,9 @@ func VerifC29Address(size int, net int, nsym int, off int) {
 	verifReach("VerifC29Address:end")
 }
 
-// VerifC29Corrupt: one character of a valid address (any position) replaced by any other byte.
-func VerifC29Corrupt(size int, net int, nsym int, off int) {
-	prog := verifC29Prog(size, nsym, off)
+// VerifC29Corrupt: one character (position posLo..posHi) of a valid address replaced by any other ASCII byte.
+func VerifC29Corrupt(size int, net int, posLo int, posHi int) {
+	prog := verifC29Prog(size, 1, size-1)
 	param := verifC29Params(net)
 	addr, _ := verifC29New(prog, param)
 	s := addr.EncodeAddress()
@@ -119,17 +129,14 @@ func VerifC29Corrupt(size int, net int, nsym int, off int) {
 		return
 	}
 	b := []byte(s)
-	pos := verifChoice("pos", len(b))
+	pos := posLo + verifChoice("pos", posHi-posLo+1)
 	c := verifU8("char")
-	verifAssume(c != b[pos])
+	verifAssume(c < 0x80 && c != b[pos])
 	b[pos] = c
 	bad := string(b)
 	verifObserveBytes("bad", b)
 	_, err := DecodeAddress(bad, param)
 	verifAssert(err != nil, "single-character-change-rejected")
-	if pos >= 3 {
-		verifReach("VerifC29Corrupt:data-part")
-	}
 	verifReach("VerifC29Corrupt:end")
 }
 
